@@ -590,6 +590,36 @@ func ruleC17NoWrongTarget(c *Ctx) {
 		if guarded {
 			nOK++
 		}
+		// a typed nil (the pointer ended at an absent single-schema keyword) must not be returned as success
+		nonNil := false
+		if sVal != nil {
+			core.EachInstr(w, func(i ssa.Instruction) {
+				ret, ok := i.(*ssa.Return)
+				if !ok || len(ret.Results) == 0 || !flowsTo(sVal, ret.Results[0]) && ret.Results[0] != sVal {
+					return
+				}
+				for _, g := range guardsOf(ret) {
+					x, k, equal, ok := eqConst(g)
+					if ok && k.IsNil() && !equal && (x == sVal || flowsTo(sVal, x)) {
+						nonNil = true
+					}
+				}
+			})
+			// named results: the value is stored to the result cell instead
+			if refs := sVal.Referrers(); refs != nil && !nonNil {
+				for _, r := range *refs {
+					if st, ok := r.(*ssa.Store); ok {
+						for _, g := range guardsOf(st) {
+							x, k, equal, ok := eqConst(g)
+							if ok && k.IsNil() && !equal && (x == sVal || flowsTo(sVal, x)) {
+								nonNil = true
+							}
+						}
+					}
+				}
+			}
+		}
+		c.R.Check(nonNil, rule, "success-non-nil", c.pos(ta), "the asserted *Schema is returned only when it is not nil", "the pointer walker can succeed with a nil *Schema (a pointer ending at an absent keyword such as /not): Resolve succeeds and Validate dereferences the nil target")
 		c.R.Check(guarded, rule, "success-from-assertion", c.pos(ta), "the returned schema is used only when the assertion succeeded", "the result of the assertion is used without testing its ok flag")
 	}
 	// 2. every lookup result is tested for validity and the failure leads to an error return
@@ -1025,6 +1055,15 @@ func ruleC20Fresh(c *Ctx) {
 					}
 				}
 			}
+			// nil-ness and emptiness must be preserved: a container rebuilt with append turns an empty non-nil container into nil
+			if okV && !isSelfCall(v) {
+				for l := range tr.Obj(v) {
+					if call, ok := l.Root.V.(*ssa.Call); ok && core.CalleeKey(&call.Call) == "builtin.append" {
+						okV = false
+						c.R.Bad(rule, "set-value-preserves-empty:"+shortTypeName(v.Type()), c.pos(x), "the cloned container is rebuilt with append: an empty but non-nil "+shortTypeName(v.Type())+" (e.g. anyOf: []) becomes nil in the clone, which marshals and validates differently")
+					}
+				}
+			}
 			n++
 			c.R.Check(okV, rule, "set-value:"+shortTypeName(v.Type()), c.pos(x), "the field is overwritten with a recursive clone or a freshly allocated container", "the field is written back with memory shared with the original ("+shortTypeName(v.Type())+")")
 		}
@@ -1138,4 +1177,177 @@ func reachesReplacer(c *Ctx, fn *ssa.Function, g *ssa.Global, users map[*ssa.Glo
 		}
 	}
 	return false
+}
+
+func init() {
+	p := Properties["C17"]
+	p.Rules = append(p.Rules, Rule{"C17/no-second-decoding", ruleC17NoSecondDecoding}, Rule{"C17/keys-from-parsed-segments", ruleC17KeysFromSegments}, Rule{"C17/special-cases-select-own-keyword", ruleC17SpecialOwnKeyword})
+}
+
+// The fragment arrives percent-decoded from net/url; the pointer code must not decode again.
+func ruleC17NoSecondDecoding(c *Ctx) {
+	const rule = "C17/no-second-decoding"
+	w := c.pointerWalker(rule)
+	if w == nil {
+		return
+	}
+	cl := c.P.Closure("PTR", c.G, w)
+	bad := 0
+	for _, fn := range cl.Sorted() {
+		core.EachInstr(fn, func(i ssa.Instruction) {
+			if call, ok := i.(ssa.CallInstruction); ok {
+				key := core.CalleeKey(call.Common())
+				switch key {
+				case "net/url.PathUnescape", "net/url.QueryUnescape", "net/url.Parse", "net/url.ParseRequestURI":
+					bad++
+					c.R.Bad(rule, core.FuncName(fn)+":"+key, c.pos(i), "the JSON Pointer code calls "+key+": the fragment was already percent-decoded by net/url, so a key containing a literal escape such as \"%41\" or \"50%25\" would be decoded twice and select another key")
+				}
+			}
+		})
+	}
+	if bad == 0 {
+		c.R.OK(rule, "pointer-code:no-url-decoding", "", fmt.Sprintf("no URL decoding in the %d functions of the pointer walker's closure", len(cl.Set)))
+	}
+}
+
+// Every string used to select a field, a map entry or an index in the walker
+// is an element of the parser's result, not a piece of the raw pointer text.
+func ruleC17KeysFromSegments(c *Ctx) {
+	const rule = "C17/keys-from-parsed-segments"
+	w := c.pointerWalker(rule)
+	if w == nil {
+		return
+	}
+	var parserCall *ssa.Call
+	core.EachInstr(w, func(i ssa.Instruction) {
+		if call, ok := i.(*ssa.Call); ok {
+			if callee := call.Call.StaticCallee(); callee != nil && c.P.InPkg(callee) && callee.Signature.Results().Len() == 2 {
+				if sl, ok := callee.Signature.Results().At(0).Type().Underlying().(*types.Slice); ok && tString(sl.Elem()) {
+					parserCall = call
+				}
+			}
+		}
+	})
+	if parserCall == nil {
+		c.R.Unresolved(rule, "call of the pointer parser in the walker")
+		return
+	}
+	fromSegments := func(v ssa.Value) bool {
+		for _, s := range traceSources(v) {
+			ok := false
+			switch x := s.(type) {
+			case *ssa.UnOp: // load of an element of the segments slice
+				if ia, isIA := x.X.(*ssa.IndexAddr); isIA {
+					for _, src := range traceSources(ia.X) {
+						if ex, isEx := src.(*ssa.Extract); isEx && ex.Tuple == parserCall {
+							ok = true
+						}
+					}
+				}
+			case *ssa.Extract:
+				if nx, isNx := x.Tuple.(*ssa.Next); isNx {
+					if rg, isRg := nx.Iter.(*ssa.Range); isRg {
+						for _, src := range traceSources(rg.X) {
+							if ex, isEx := src.(*ssa.Extract); isEx && ex.Tuple == parserCall {
+								ok = true
+							}
+						}
+					}
+				}
+			}
+			if !ok {
+				return false
+			}
+		}
+		return true
+	}
+	n := 0
+	var sParam *ssa.Parameter
+	for _, p := range w.Params {
+		if tString(p.Type()) {
+			sParam = p
+		}
+	}
+	core.EachInstr(w, func(i ssa.Instruction) {
+		var key ssa.Value
+		what := ""
+		switch x := i.(type) {
+		case *ssa.Lookup:
+			if _, isMap := x.X.Type().Underlying().(*types.Map); isMap && tString(x.Index.Type()) {
+				key, what = x.Index, "a map lookup"
+			}
+		case *ssa.Call:
+			k := core.CalleeKey(&x.Call)
+			callee := x.Call.StaticCallee()
+			switch {
+			case k == "reflect.Value.MapIndex":
+				if vo, ok := x.Call.Args[1].(*ssa.Call); ok && core.CalleeKey(&vo.Call) == "reflect.ValueOf" {
+					key, what = peelIface(vo.Call.Args[0]), "MapIndex"
+				}
+			case k == "strconv.Atoi":
+				key, what = x.Call.Args[0], "the array index"
+			case callee != nil && callee == c.pointerFieldLookup(rule):
+				key, what = x.Call.Args[1], "the field lookup"
+			case k == "reflect.Value.FieldByName":
+				key, what = x.Call.Args[1], "FieldByName"
+			}
+		}
+		if key == nil {
+			return
+		}
+		n++
+		ok := fromSegments(key)
+		_ = sParam
+		c.R.Check(ok, rule, fmt.Sprintf("key#%d:%s", n, what), c.pos(i), "the selector of "+what+" is an element of the parsed (unescaped) segment list",
+			"the selector of "+what+" is not an element of the parser's segment list (e.g. a piece of the raw, still escaped pointer text): '~0'/'~1' in a key would be matched literally and a pointer could select a key spelled like the escaped form of another")
+	})
+	c.R.Floor(rule, "selectors in the pointer walker", n, 3)
+}
+
+// A special case in the field lookup may only map a keyword to the Go fields that carry that keyword.
+func ruleC17SpecialOwnKeyword(c *Ctx) {
+	const rule = "C17/special-cases-select-own-keyword"
+	lf := c.pointerFieldLookup(rule)
+	if lf == nil {
+		return
+	}
+	kw := map[string]string{"Type": "type", "Types": "type", "Items": "items", "ItemsArray": "items", "DependencySchemas": "dependencies", "DependencyStrings": "dependencies"}
+	for _, f := range c.SchemaFields(rule) {
+		if f.JSONName != "" {
+			kw[f.Name] = f.JSONName
+		}
+	}
+	namePar := lf.Params[1]
+	n := 0
+	core.EachInstr(lf, func(i ssa.Instruction) {
+		call, ok := i.(*ssa.Call)
+		if !ok {
+			return
+		}
+		var fieldName string
+		switch core.CalleeKey(&call.Call) {
+		case "reflect.Value.FieldByName":
+			fieldName, _ = constString(call.Call.Args[1])
+		default:
+			return
+		}
+		if fieldName == "" {
+			return
+		}
+		// may-semantics: the selection can execute when name == n (|| chains included)
+		for _, g := range controlGuards(call) {
+			x, k, equal, ok := eqConst(g)
+			if !ok || !equal || x != namePar {
+				continue
+			}
+			name, isStr := constString(k)
+			if !isStr {
+				continue
+			}
+			n++
+			c.R.Check(kw[fieldName] == name, rule, "case:"+name+"->"+fieldName, c.pos(call), "the special case for \""+name+"\" selects a field that carries that keyword",
+				fmt.Sprintf("the special case for %q returns Schema.%s, which carries the keyword %q: a pointer through %q would resolve although the document has no such location (or reach the wrong subschema)", name, fieldName, kw[fieldName], name))
+		}
+	})
+	c.R.Floor(rule, "special-cased field selections", n, 5)
 }
